@@ -157,6 +157,53 @@ def run(rep, tier="quick", replay=None, evidence_dir=None):
             rep.ob("C16.R1", "serde %s under %s: serializer and deserializer agree on accepting it" % (m, lab), ok,
                    "only the %s accepts %s for `%s`: a value written under this schema cannot be read back by the same serde type (or the reverse)" % (only, lab, m), "")
 
+    # ---------------------------------------------------------------- R6 composite methods: accepted shapes agree
+    rep.rule("C16.R6", "composite serde methods (seq, tuple, map, struct, option, enum variants ...): the schema shapes the serializer accepts are the shapes the deserializer accepts for the dual method")
+    PAIRS = [(["seq"], ["seq"]), (["tuple"], ["tuple"]), (["tuple_struct"], ["tuple_struct"]), (["map"], ["map"]), (["struct"], ["struct"]),
+             (["newtype_struct"], ["newtype_struct"]), (["unit_struct"], ["unit_struct"]), (["some", "none"], ["option"]),
+             (["unit_variant", "newtype_variant", "tuple_variant", "struct_variant"], ["enum"])]
+
+    def accepted(pre, verb, m):
+        key = pre + verb + m
+        b = prog.bodies.get(key)
+        if b is None:
+            rep.anchor_error("C16.R6", key)
+            return None
+        vp = w.vpes(b)
+        if KEY not in vp.keys():
+            return None
+        acc = set()
+        for s_, reg in key_shapes(vp, KEY):
+            sm = w.summary(key, s_)
+            if sm["exits"]["can_ok"]:
+                acc.add(shape_label(s_).split("(")[0])
+        return acc
+    n6 = 0
+    for sm_, dm_ in PAIRS:
+        sa = set()
+        da = set()
+        okp = True
+        for m in sm_:
+            a = accepted(SER, "serialize_", m)
+            if a is None:
+                okp = False
+            else:
+                sa |= a
+        for m in dm_:
+            a = accepted(DES, "deserialize_", m)
+            if a is None:
+                okp = False
+            else:
+                da |= a
+        if not rep.ob("C16.R6", "serialize_%s / deserialize_%s discriminate the schema" % ("|".join(sm_), "|".join(dm_)), okp and bool(sa) and bool(da), "", ""):
+            continue
+        for lab in sorted(sa | da):
+            n6 += 1
+            only = "serializer" if lab not in da else ("deserializer" if lab not in sa else None)
+            rep.ob("C16.R6", "serde %s under %s: serializer and deserializer agree on accepting it" % ("|".join(sm_), lab), only is None,
+                   "only the %s accepts a %s schema for %s: what one side writes under this schema the other side refuses (or the reverse)" % (only, lab, "|".join(sm_)), "")
+    rep.floor("C16.R6", "composite method/shape cells", n6, 44)
+
     # ---------------------------------------------------------------- R3 / R4 imports
     import c13
     sub = common.Report("C13", tier, 0)
